@@ -35,8 +35,8 @@ def shrink_world(W, still_fails):
     return cur
 
 
-def run_worlds(run, h, worlds, prop_codes=(1, 2, 3, 4, 5), wf_prop=False, nontriv=nontrivial):
-    res, mm = listcorr.eval_list(h, worlds)
+def run_worlds(run, h, worlds, prop_codes=(1, 2, 3, 4, 5), wf_prop=False, nontriv=nontrivial, shuffle=False, focus_of=None):
+    res, mm = listcorr.eval_list(h, worlds, focus_of=focus_of, shuffle_rng=(run.rng if shuffle else None))
     run.count(len(worlds))
     run.cov['traces_validated_against_impl'] += len(worlds)
     for cid, W in worlds:
@@ -56,14 +56,14 @@ def run_worlds(run, h, worlds, prop_codes=(1, 2, 3, 4, 5), wf_prop=False, nontri
 
         def still(c, code=code):
             try:
-                _, m2 = listcorr.eval_list(h, [(cid, c)])
+                _, m2 = listcorr.eval_list(h, [(cid, c)], focus_of=(lambda a, b, f=res[cid]['focus']: f))
             except Exception:
                 return False
             return any(k == code for _, k in m2)
         small = shrink_world(W, still)
-        r2, _ = listcorr.eval_list(h, [(cid, small)])
+        r2, _ = listcorr.eval_list(h, [(cid, small)], focus_of=(lambda a, b, f=res[cid]['focus']: f))
         run.report(None, 'list-%d-%d' % (cid, code),
-                   {'kind': 'list-correspondence', 'code': code, 'meaning': listcorr.CODES[code], 'world': small,
+                   {'kind': 'list-correspondence', 'focus': res[cid]['focus'], 'code': code, 'meaning': listcorr.CODES[code], 'world': small,
                     'manifests': [m for m, _ in r2[cid]['docs']], 'observed': r2[cid]['obs'],
                     'how': 'write the manifests to a directory (one document per file f000.yaml.. in this order) and run `k8snetpolicy list --dirpath DIR -o json`; '
                            'the Gallina model (Model/Connlist.v list_objs, proved equal to the pointwise NetworkPolicy semantics in Properties/C01.v) gives a different answer'},
@@ -106,7 +106,8 @@ def replay(payload):
     core.build_go(['verifapi'], run.log)
     h = listcorr.Harness()
     try:
-        run_worlds(run, h, [(1, payload['world'])], wf_prop=(payload['property'] == 'C05'))
+        run_worlds(run, h, [(1, payload['world'])], wf_prop=(payload['property'] == 'C05'),
+                   focus_of=(lambda a, b: payload.get('focus', '')))
     finally:
         h.close()
     return run.finish()
